@@ -40,6 +40,7 @@ THEOREMS = [
     "Nix.C12.multi_tag_refused_unchanged",
     "Nix.C12.write_data_refused_unchanged",
     "Nix.C12.write_data_accepted",
+    "Nix.C12.write_data_text_refused_unchanged",
     "Nix.C12.vector_setters_refused_unchanged",
     "Nix.C12.property_values_refused_unchanged",
     "Nix.C12.ticks_refused_unchanged",
@@ -113,9 +114,9 @@ MANIFEST = {
                   "write_direct, __setitem__, data_extent, DataFrame writes, dimension setters (labels, unit, label, "
                   "offset, interval), dimension links, Property attribute setters, Section item assignment, copy_from "
                   "creation and File-level deletes have no theorem: they are checked by the oracle (catalogue + spelling "
-                  "sweep) on the implementation only. Tag.units / MultiTag.units (string vectors) and "
-                  "SetDimension.labels go through write_data with a non-float dtype and are outside write_data_refused_unchanged "
-                  "(stated for the float dtype); ticks_refused_unchanged assumes that a linked dimension holds no ticks dataset. create_multi_tag with positions/extents given as data has its own full theorem "
+                  "sweep) on the implementation only. Tag.units / MultiTag.units / SetDimension.labels: only their common "
+                  "write_data call with a text dtype has a theorem (write_data_text_refused_unchanged), their own validation "
+                  "loops are not modelled; ticks_refused_unchanged assumes that a linked dimension holds no ticks dataset. create_multi_tag with positions/extents given as data has its own full theorem "
                   "(multi_tag_refused_unchanged, under C03's invariant WF and the assumption that '<name>-positions' / "
                   "'<name>-extents' are not ids of the supply). name_still_available is proved for "
                   "create_group/source/data_array/tag (not for multi tags).",
@@ -921,6 +922,19 @@ def _catalogue():
         lambda c: c["b"].create_data_frame("f3", "t", col_names=["a", "b"], col_dtypes=[int, float]))
     add("create_data_frame:col-dict-empty-mapping", lambda c: c["b"].create_data_frame("f4", "t", col_dict=c["s2"]),
         lambda c: c["b"].create_data_frame("f4", "t", col_dict={"a": int}))
+    add("Tag.units:text-not-encodable-longer", lambda c: _set(c["t"], "units", ["s", "mV", "a\udc80b"]))
+    add("SetDimension.labels:text-not-encodable-longer", lambda c: _set(c["sd"], "labels", ["x", "y", "a\udc80b"]))
+    add("Entity.type:text-with-nul", lambda c: _set(c["b"], "type", "a\x00b"))
+    add("Entity.type:text-not-encodable", lambda c: _set(c["t"], "type", "a\udc80b"))
+    add("Entity.definition:text-with-nul", lambda c: (_set(c["da"], "definition", "a\x00b")),
+        setup=lambda c: _set(c["da"], "definition", "something"))
+    add("DataArray.unit:text-with-nul", lambda c: _set(c["da"], "unit", "m\x00V"), setup=lambda c: _set(c["da"], "unit", "mV"))
+    add("Property.unit:text-not-encodable", lambda c: _set(c["pr"], "unit", "a\udc80b"), setup=lambda c: _set(c["pr"], "unit", "mV"))
+    add("Property.values:text-not-encodable-longer", lambda c: _set(c["ps"], "values", ["x", "y", "a\udc80b"]))
+    add("Property.extend_values:text-not-encodable", lambda c: c["ps"].extend_values(["x", "a\udc80b"]))
+    add("Tag.units:text-with-nul-longer", lambda c: _set(c["t"], "units", ["s", "mV", "a\x00b"]))
+    add("MultiTag.units:text-with-nul-longer", lambda c: _set(c["mt"], "units", ["s", "mV", "a\x00b"]))
+    add("SetDimension.labels:text-with-nul-longer", lambda c: _set(c["sd"], "labels", ["x", "y", "a\x00b"]))
     add("Tag.units:int", lambda c: _set(c["t"], "units", ["mV", 5]))
     add("DataArray.unit:int", lambda c: _set(c["da"], "unit", 5))
     add("DataArray.label:int", lambda c: _set(c["da"], "label", 5))
